@@ -30,6 +30,8 @@ EXACT_CONFIGS = [
     ([3, 2, 3], 2, 3, 0, 0, 1),      # start above rho (capped by what a core can carry)
     ([2, 3, 2, 3], 2, 1, 1, 1, 1),   # too few sweeps: no exactness claimed
     ([4, 5], 1, 1, 0, 0, 1),
+    ([3, 3, 3], 2, 4, 0, 0, 1),      # over-capacity initial ranks, fixed-rank mode
+    ([4, 6], 3, 5, 0, 0, 2),
 ]
 
 
@@ -52,7 +54,7 @@ def run(ctx):
     res = tlc.run('MC_Cross', cfg='MC_Cross_pre.cfg', workers=16, timeout=3000)
     ctx.add_tlc(res, 'exhaustive model with a preloaded cache dictionary')
 
-    confs = EXACT_CONFIGS[:5] if ctx.tier == 'quick' else EXACT_CONFIGS + [c for c in R.BASE_CONFIGS]
+    confs = EXACT_CONFIGS[:4] + EXACT_CONFIGS[-2:] if ctx.tier == 'quick' else EXACT_CONFIGS + [c for c in R.BASE_CONFIGS]
     nseeds = 1 if ctx.tier == 'quick' else 4
     trs = []
     for k, (n, rho, r0, a, b, nswp) in enumerate(confs):
